@@ -866,6 +866,11 @@ func (rn *runner) run(crashAfter int) (died bool, cont bool) {
 	if died {
 		rn.tg.revive() // closes whatever is still open
 	}
+	if sc.migU > 0 && endedByItself && sendErr != nil && !errors.Is(sendErr, context.Canceled) {
+		// a slot hand-over may end the run with a reported error (C19: "retried at the indicated node or a reported restart");
+		// the link is started again - what must not happen is a unit that is lost or, in sync mode, applied twice
+		died = true
+	}
 	if rn.resetFired.Swap(false) && endedByItself {
 		died = true // the connection was reset under the run and the run ended with an error: a fault, the link is started again
 	}
